@@ -12,9 +12,11 @@ package main
 //	pre ins <path> <hex> | pre del <path>   sequential setup on a builder trie
 //	rm <i>                             remove the i-th (mod n) non-root node reachable from the root from the store
 //	donor ins <path> <hex> | donor del <path>   sequential setup of the donor trie that `mergedb` merges in
+//	children <n>                       n child tries, each over its own LevelNodeDB layered on the shared trie's store
 //	fresh                              the shared trie is a new trie object over the same store and root (empty node cache)
 //	t <tid> ins <path> <hex> | del <path> | get <path> | iter | root | changes | count | deletes | save | savec
 //	        | missing | allmissing | hasmissing | pause <n> | sleep <microseconds>
+//	        | cins <k> <path> <hex> | cdel <k> <path> | cget <k> <path> | citer <k> | croot <k>   the operation on child trie k
 //	        | deletes       GetDeletes: number of nodes, and how many of them are MergeDB's dead nodes
 //	        | mergedb       MergeDB(donor store, donor root, two dead nodes): the trie becomes the donor trie
 //	        | mergechild <path> <hex>   child trie opened at the current root inserts the key, MergeMPTChanges(child)
@@ -48,7 +50,7 @@ func init() {
 	childModes["c16child"] = c16Child
 	register(&Suite{
 		Name: "c16",
-		Rule: "2-6 goroutines run scripts (ins/del/get/iter/root/GetChanges/GetChangeCount/GetDeletes/SaveChanges/missing-node reads, random Gosched/sleeps) over one shared trie on mem/level/pndb stores; scenarios: lookups into nodes removed from the store, disjoint key sets, overlapping key sets, readers vs writer vs saver, merges (MergeDB from a donor store with dead nodes and MergeMPTChanges from a child trie vs back-to-back GetDeletes/GetChanges; GetDeletes must list the dead nodes of exactly the merges before it), snapshot stress (writers vs back-to-back GetChanges, each returned (root, changes, deletes, startRoot) replayed over the setup store and required to be one complete state); child process under the race detector (exit 66 = DATA RACE); porcupine against the map specification; final root/content and saved change sets checked; non-trivial = >= 2 goroutines and (a successful concurrent update or >= 2 absent-node hits)",
+		Rule: "2-6 goroutines run scripts (ins/del/get/iter/root/GetChanges/GetChangeCount/GetDeletes/SaveChanges/missing-node reads, random Gosched/sleeps) over one shared trie on mem/level/pndb stores; scenarios: lookups into nodes removed from the store, disjoint key sets, overlapping key sets, readers vs writer vs saver, several tries over one store (child tries on their own LevelNodeDB layered over the shared trie's store, one goroutine each, plus readers of the shared trie: every child must behave as a map of its own), merges (MergeDB from a donor store with dead nodes and MergeMPTChanges from a child trie vs back-to-back GetDeletes/GetChanges; GetDeletes must list the dead nodes of exactly the merges before it), snapshot stress (writers vs back-to-back GetChanges, each returned (root, changes, deletes, startRoot) replayed over the setup store and required to be one complete state); child process under the race detector (exit 66 = DATA RACE); porcupine against the map specification; final root/content and saved change sets checked; non-trivial = >= 2 goroutines and (a successful concurrent update or >= 2 absent-node hits)",
 		Gen:  genC16,
 		Run:  runC16,
 		DefaultN: func(tier string) int {
@@ -125,6 +127,7 @@ func c16Child() {
 		version       int64
 		kind          string
 		fresh         bool
+		nChildren     int
 	)
 	t0 := time.Now()
 	now := func() int64 { return int64(time.Since(t0)) }
@@ -179,6 +182,11 @@ func c16Child() {
 		case "fresh":
 			fresh = true
 			res[i].out = "ok"
+		case "children":
+			// n child tries, each over its own LevelNodeDB layered on the SHARED trie's store, opened at the
+			// shared trie's root when the threads start (production pattern: block trie + transaction tries)
+			nChildren, _ = strconv.Atoi(f[1])
+			res[i].out = "ok"
 		case "donor":
 			// a second, independent trie (own store, same version) that `mergedb` merges into the shared trie
 			if c16Snap.donor == nil {
@@ -219,6 +227,10 @@ func c16Child() {
 	c16Snap.base, c16Snap.version, c16Snap.root0 = base, version, append(util.Key(nil), mpt.GetRoot()...)
 	if !fresh {
 		c16Snap.root0 = nil // the builder trie's collector started from the empty trie
+	}
+	for k := 0; k < nChildren; k++ {
+		cdb := util.NewLevelNodeDB(util.NewMemoryNodeDB(), mpt.GetNodeDB(), false)
+		c16Children = append(c16Children, newMPT(cdb, version, mpt.GetRoot()))
 	}
 	threads := map[int][]int{}
 	var tids []int
@@ -289,8 +301,22 @@ func c16Child() {
 		return "ok " + fmtPairs(ps)
 	})
 	fmt.Fprintf(w, "final saved %s\n", saved)
+	for k, ch := range c16Children {
+		c := now()
+		out := guard(func() string {
+			ps, err := iterPairs(ch)
+			if err != nil {
+				return errKind(err)
+			}
+			return "ok " + fmtPairs(ps)
+		})
+		fmt.Fprintf(w, "final child %d %d %d %s %s\n", k, c, now(), rootStr(ch.GetRoot()), out)
+	}
 	w.Flush()
 }
+
+// c16Children: the child tries layered over the shared trie's store (setup op `children n`)
+var c16Children []*util.MerklePatriciaTrie
 
 // c16Snap: what the child needs to judge a change set returned by GetChanges (set once before the threads start).
 var c16Snap struct {
@@ -350,6 +376,14 @@ func c16SnapCheck(root util.Key, changes []*util.NodeChange, deletes []util.Node
 
 func c16Exec(mpt *util.MerklePatriciaTrie, db2 util.NodeDB, f []string, post *func() string) string {
 	return guard(func() string {
+		if len(f[0]) > 1 && f[0][0] == 'c' {
+			switch f[0][1:] {
+			case "ins", "del", "get", "iter", "root":
+				// the same operation on child trie <k>: c<op> <k> args...
+				k, _ := strconv.Atoi(f[1])
+				return c16Exec(c16Children[k%len(c16Children)], db2, append([]string{f[0][1:]}, f[2:]...), post)
+			}
+		}
 		switch f[0] {
 		case "ins":
 			k, err := mpt.Insert([]byte(pathOf(f[1])), mkVal(unhx(f[2])))
@@ -396,6 +430,13 @@ func c16Exec(mpt *util.MerklePatriciaTrie, db2 util.NodeDB, f []string, post *fu
 		case "setver":
 			mpt.SetVersion(mpt.GetVersion())
 			return "ok"
+		case "dbversion":
+			// LevelNodeDB.GetDBVersion on the trie's store (never generated: probes MergeMPTChanges' unlocked
+			// `db.version = ...`, see notes/C16.md)
+			if l, ok := mpt.GetNodeDB().(*util.LevelNodeDB); ok {
+				return fmt.Sprintf("ok %d", l.GetDBVersion()&0)
+			}
+			return "ok -"
 		case "count":
 			return fmt.Sprintf("ok %d", mpt.GetChangeCount())
 		case "deletes":
@@ -838,6 +879,7 @@ func runC16(ops []string) (res CaseResult) {
 
 	// history
 	var hist []porcupine.Operation
+	childHist := map[int][]porcupine.Operation{}
 	fullState := removed
 	absentHits, updatesOK := 0, 0
 	emptyProbe := false
@@ -879,6 +921,26 @@ func runC16(ops []string) (res CaseResult) {
 		}
 		var in linIn
 		switch f[2] {
+		case "cins", "cdel", "cget", "citer", "croot":
+			// operation on a child trie layered over the shared store: its own map, starting from the setup content
+			k, _ := strconv.Atoi(f[3])
+			var cin linIn
+			switch f[2] {
+			case "cins":
+				cin = linIn{"ins", pathOf(f[4]), f[5]}
+			case "cdel":
+				cin = linIn{"del", pathOf(f[4]), ""}
+			case "cget":
+				cin = linIn{"get", pathOf(f[4]), ""}
+			default:
+				cin = linIn{f[2][1:], "", ""}
+			}
+			tags["child-tries"] = true
+			if strings.HasPrefix(out, "ok") && (f[2] == "cins" || f[2] == "cdel") {
+				updatesOK++
+			}
+			childHist[k] = append(childHist[k], porcupine.Operation{ClientId: tid, Input: cin, Call: call, Output: out, Return: ret})
+			continue
 		case "ins":
 			in = linIn{"ins", pathOf(f[3]), f[4]}
 			if strings.HasPrefix(out, "ok") {
@@ -932,7 +994,7 @@ func runC16(ops []string) (res CaseResult) {
 			if out == "ok" {
 				updatesOK++
 			}
-		case "save", "savec", "count", "missing", "setver":
+		case "save", "savec", "count", "missing", "setver", "dbversion":
 			if strings.HasPrefix(out, "err") {
 				fail("op %d (%s): returned %s", i, op, out)
 			}
@@ -970,6 +1032,30 @@ func runC16(ops []string) (res CaseResult) {
 			if finalSaved == "ok" {
 				finalSaved = "ok "
 			}
+		case "child": // final child <k> <call> <ret> <root> <iter...>
+			k, _ := strconv.Atoi(f[2])
+			c, _ := strconv.ParseInt(f[3], 10, 64)
+			r, _ := strconv.ParseInt(f[4], 10, 64)
+			it := strings.Join(f[6:], " ")
+			if it == "ok" {
+				it = "ok "
+			}
+			childHist[k] = append(childHist[k],
+				porcupine.Operation{ClientId: 99, Input: linIn{"root", "", ""}, Call: c, Output: "ok " + f[5], Return: r + 1},
+				porcupine.Operation{ClientId: 99, Input: linIn{"iter", "", ""}, Call: c, Output: it, Return: r + 1})
+		}
+	}
+	// every child trie is a map of its own that starts from the setup content, whatever the other tries do
+	for k, h := range childHist {
+		cm := c16Model(init, version, false, "")
+		if porcupine.CheckOperationsTimeout(cm, h, 10*time.Second) == porcupine.Illegal {
+			tags["child-not-linearizable"] = true
+			var hs []string
+			sort.Slice(h, func(i, j int) bool { return h[i].Call < h[j].Call })
+			for _, o := range h {
+				hs = append(hs, fmt.Sprintf("[g%d %d..%d] %s", o.ClientId, o.Call/1000, o.Return/1000, cm.DescribeOperation(o.Input, o.Output)))
+			}
+			fail("child trie %d (own LevelNodeDB over the shared store) does not behave as a map of its own started from %q: %s", k, init, strings.Join(hs, " ; "))
 		}
 	}
 	model := c16Model(init, version, removed, contentStr(donor))
@@ -1073,6 +1159,16 @@ func genC16(r *rand.Rand, tier string, idx int) []string {
 			maxOps = 60
 		}
 	}
+	if idx%8 == 3 {
+		// several tries over one store: child tries (own LevelNodeDB layered on the shared trie's store), each used
+		// by its own goroutine, plus readers of the shared (parent) trie, which nobody updates
+		scenario = 6
+		nThreads = 3 + r.Intn(3)
+		maxOps = 14
+		if tier == "thorough" {
+			maxOps = 28
+		}
+	}
 	if idx%8 == 5 {
 		// merges: MergeDB (the only writer of deleteNodes) and child merges vs back-to-back GetDeletes / GetChanges
 		scenario = 5
@@ -1106,6 +1202,9 @@ func genC16(r *rand.Rand, tier string, idx int) []string {
 		for k, n := 0, r.Intn(6); k < n; k++ {
 			ops = append(ops, "donor ins "+ptok(genPath(r, alpha, pool))+" "+genValue(r))
 		}
+	}
+	if scenario == 6 {
+		ops = append(ops, fmt.Sprintf("children %d", nThreads-1))
 	}
 	if scenario == 0 {
 		for k, n := 0, 1+r.Intn(2); k < n; k++ {
@@ -1158,10 +1257,32 @@ func genC16(r *rand.Rand, tier string, idx int) []string {
 			role = []string{"merger", "delreader", "writer", "delreader", "merger"}[tid%5]
 			n = maxOps/2 + r.Intn(maxOps/2)
 		}
+		if scenario == 6 {
+			role = "childuser" // goroutine tid owns child trie tid; the last goroutine reads the parent
+			if tid == nThreads-1 {
+				role = "reader"
+			}
+			n = maxOps/2 + r.Intn(maxOps/2)
+		}
 		for k := 0; k < n; k++ {
 			x := r.Intn(100)
 			var line string
 			switch role {
+			case "childuser":
+				switch {
+				case x < 40:
+					p := key()
+					line = fmt.Sprintf("cins %d %s %s", tid, ptok(p), genValue(r))
+					pool = append(pool, p)
+				case x < 58:
+					line = fmt.Sprintf("cdel %d %s", tid, ptok(key()))
+				case x < 82:
+					line = fmt.Sprintf("cget %d %s", tid, ptok(key()))
+				case x < 92:
+					line = fmt.Sprintf("citer %d", tid)
+				default:
+					line = fmt.Sprintf("croot %d", tid)
+				}
 			case "merger":
 				switch {
 				case x < 40:
